@@ -214,3 +214,85 @@ class TreeReferring:
         if got != sorted(allw):
             run.violation("tree_referring", m.kind + ".referring_objects", "set", "got %r want %r" % (got, sorted(allw)))
         return res(OK)
+
+
+@op("tree_copy_find")
+class TreeCopyFind:
+    """Terminating experiment (C13): a section subtree is copied, ids kept (the library default of
+    copy_section), to another place of the same file; the searches then have to return the original
+    and the copy - two stored sections that share an id are two entities of the tree, 'each once'
+    counts stored entities, not ids.  Compared as multisets of ids (where h5py's group copy places
+    the copy among its new siblings is not judged), plus the searches rooted at the copy itself.
+    Parents of kept-id copies are not judged: the lookup is by id and the property names no rule
+    for entities that share one."""
+
+    def gen(self, run, rng):
+        if not run.enum("section"):
+            return None
+        return {"op": "tree_copy_find", "src": idx(rng), "dst": idx(rng),
+                "into": P.pick(rng, ["file", "section", "section"]),
+                "limit": P.pick(rng, [None, None, 1, 2, 3, 5]), "via": gen_via(run, rng),
+                "filter": P.pick(rng, ["all", "all", "id", "name", "type"])}
+
+    def do(self, run, o):
+        from .ops_refuse import StopRun
+        from .model import MSection
+        sm = run.pick("section", o["src"])
+        if sm is None:
+            return res(NOOP)
+        mfile = run.fstate().model
+        inside = set(x.uid for x in sm.subtree())
+        dest = mfile
+        if o["into"] == "section":
+            cands = [x for x in run.enum("section") if x.uid not in inside]
+            if cands:
+                dest = cands[o["dst"] % len(cands)]
+        taken = [x.name for x in dest.sections]
+        name = sm.name
+        i = 0
+        while name in taken:
+            i += 1
+            name = "cp%d-%s" % (i, sm.name)
+        sh = run.R(sm, o.get("via", 0))
+        dh = run.R(dest, 0)
+        r = run.call(lambda: dh.copy_section(sh, children=True, keep_id=True, name=name))
+        if r[0] == "exc":
+            raise StopRun("tree_copy_find: copy refused (%s)" % type(r[1]).__name__)
+        copy_h = r[1]
+
+        def graft(m, parent, nm=None):
+            c = MSection(nm or m.name, m.type, m.id, parent)
+            c.sections = [graft(x, c) for x in m.sections]
+            return c
+        cm = graft(sm, dest, name)
+        dest.sections.append(cm)
+        n_sub = len(cm.subtree())
+
+        fk = o["filter"]
+        arg = {"id": sm.id, "name": sm.name, "type": sm.type}.get(fk)
+        freal, fmodel = make_filter(fk, arg)
+        limit = o["limit"]
+        roots = [(mfile, run.fstate().real, "file", False)]
+        p = dest
+        while getattr(p, "kind", None) == "section":
+            roots.append((p, run.R(p, 0), "ancestor", True))
+            p = p.parent_
+        roots.append((cm, copy_h, "copy", True))
+        for mroot, rh, what, entity_root in roots:
+            for lim in ([None] if limit is None else [limit, None]):
+                q = run.call(lambda: rh.find_sections(filtr=freal, limit=lim) if lim is not None
+                             else rh.find_sections(filtr=freal))
+                if q[0] == "exc":
+                    run.violation("tree_find", "find_section_after_keepid_copy:" + what,
+                                  "raises:" + type(q[1]).__name__, repr(q[1])[:200])
+                got = sorted(x.id for x in q[1])
+                want = sorted(m.id for m in model_bfs(mroot, "sections", lim, entity_root) if fmodel(m))
+                if got != want:
+                    cls = "missing" if len(got) < len(want) else ("extra" if len(got) > len(want) else "set")
+                    run.violation("tree_find", "find_section_after_keepid_copy:" + what, cls,
+                                  "limit=%r filter=%s got %d want %d (copied subtree of %d)"
+                                  % (lim, fk, len(got), len(want), n_sub))
+        run.stats["tree_copy_find:" + ("into_file" if dest is mfile else "into_section")] += 1
+        if n_sub > 1:
+            run.stats["tree_copy_find:subtree_with_children"] += 1
+        raise StopRun("tree copy experiment done")
